@@ -586,6 +586,7 @@ fn eval(c: &Case) -> Option<String> {
 fn eval_inner(c: &Case) -> Option<String> {
     let (k, n, h) = (c.view.as_str(), c.n, &c.stream[..]);
     match c.prop.as_str() {
+        "C14" if !BINARY.contains(&k) => check_chain(k, &c.inner, n, h).or_else(|| check_functional_over(k, &c.inner, n, h)),
         "C01" | "C14" => if BINARY.contains(&k) { let (x, y) = c.inner.split_once('+').unwrap(); check_chain2(k, x, y, n, h) } else { check_chain(k, &c.inner, n, h) },
         "C02" | "C05" | "C06" | "C11" | "C13" => check_functional_over(k, &c.inner, n, h),
         "C03" => check_finite_memory(k, n, h, &c.stream2, &c.stream2[c.stream2.len().saturating_sub(c.b as usize)..]).or(None),
@@ -615,7 +616,7 @@ fn kinds_for(prop: &str) -> Vec<&'static str> {
         "C12" => vec!["hl_normalizer", "vsct", "cti", "net", "eft", "rsi", "my_rsi", "laguerre_rsi", "vst", "roc", "center_of_gravity", "binary_entropy", "trend_flex", "re_flex", "ln_return", "drawdown",
                       "min", "max", "sma", "ema", "alma", "cumulative", "welford_online", "super_smoother", "laguerre_filter", "roofing_filter", "cyber_cycle"],
         "C13" => vec!["welford_rolling", "drawdown", "ln_return"],
-        "C14" => vec!["add", "subtract", "multiply", "divide", "tanh", "gte", "lte"],
+        "C14" => vec!["add", "subtract", "multiply", "divide", "tanh", "gte", "lte", "echo"],
         _ => UNARY.to_vec(),
     }
 }
@@ -641,7 +642,8 @@ fn search(prop: &str, s: &mut Search) -> (usize, Option<Case>) {
                 if prop == "C01" && s.rng.below(5) == 0 { let op = s.rng.pick(BINARY); c.view = op.into(); c.inner = format!("{}+{}", s.rng.pick(&inners[..8]), s.rng.pick(&inners[..8])); }
             }
             "C02" | "C04" | "C05" | "C06" | "C11" | "C13" => if s.rng.below(3) == 0 && !positive_only(k) && prop != "C13" { c.inner = s.rng.pick(if residue_sensitive(k) { &["sma", "max", "gte", "cumulative", "min", "lte"][..] } else { &["sma", "tanh", "ema", "max", "gte", "cumulative"][..] }).into(); },
-            "C14" => if BINARY.contains(&k) { c.inner = format!("{}+{}", s.rng.pick(&inners[..8]), s.rng.pick(&inners[..8])); },
+            "C14" => if BINARY.contains(&k) { c.inner = format!("{}+{}", s.rng.pick(&inners[..8]), s.rng.pick(&inners[..8])); }
+                     else if k != "echo" { c.inner = s.rng.pick(&["echo", "sma", "cumulative", "roc", "ema", "max"]).into(); },
             "C03" => { let kk = 2 * n + 3; let extra = s.rng.below(4) as usize; let suffix = gen_stream(&mut s.rng, kk + extra, false);
                 let l2 = 1 + s.rng.below(12) as usize; let mut p2 = gen_stream(&mut s.rng, l2, false); if s.rng.below(2) == 0 { p2.push(1024.0); }
                 c.b = suffix.len() as f64; p2.extend(suffix.iter()); c.stream2 = p2; },
